@@ -49,6 +49,12 @@
     :sig :usr1
     :unix :unix
     :datagram :datagram
+    :ffi-int :int
+    :ffi-ptr :ptr
+    :ffi-str :string
+    :bytes8 @"\0\0\0\0\0\0\0\0"
+    :str8 "12345678"
+    :eight 8
     s))
 
 (defn- log-text [lg]
